@@ -1031,6 +1031,46 @@ fn struct_values(m: &Model, ctx: &mut Ctx) {
             Err(e) => ctx.fail_closed("C07.struct", &format!("[{}]: {}", key, e)),
         }
     }
+    // OPTIONAL components: the field of the generated struct is an Option<T>, so the linked value must say whether the
+    // component is present (a value that looks exactly like a mandatory one is rendered `new(.., true, ..)` for
+    // `b: Option<bool>`), and leaving the component out is a value, not an error
+    for written in [true, false] {
+        let key = format!("OPTIONAL component written={}", written);
+        ctx.oblige("C07.struct", &key, true);
+        let mut mf = BTreeMap::new();
+        mf.insert("name".to_string(), Val::Str("x".into()));
+        mf.insert("ty".to_string(), Val::Opaque("ty".into()));
+        mf.insert("optionality".to_string(), Val::ctor("Optional"));
+        let member = Val::Ctor("SequenceOrSetMember".into(), vec![], mf);
+        let mut env = Env::new();
+        let mut list = vec![Val::Tuple(vec![Val::some(Val::Str("other".into())), Val::Sym("OTHER".into())])];
+        if written {
+            list.push(Val::Tuple(vec![Val::some(Val::Str("x".into())), Val::Sym("WRITTEN-9".into())]));
+        }
+        env.insert(val_param.clone(), Val::List(list));
+        match ev.apply_closure(&syn::Expr::Closure(clo.clone()), &[member], &env) {
+            Ok(r) => {
+                let got = match &r {
+                    Val::Ctor(ok, p, _) if ok == "Ok" => match p.first() {
+                        Some(Val::Tuple(t)) if t.len() == 3 => t[2].show(),
+                        Some(o) => o.show(),
+                        None => "?".into(),
+                    },
+                    Val::Ctor(e, _, _) if e == "Err" => "<error>".into(),
+                    o => o.show(),
+                };
+                if written && got == "Explicit(WRITTEN-9)" {
+                    ctx.violate("C07.struct", "optional-component:presence-lost", &f.file, span_line(clo),
+                        "a SEQUENCE value that gives the OPTIONAL component x: x is linked as `Explicit(WRITTEN-9)`, exactly like a mandatory component — the generator cannot know that the field is an Option<T> and renders `Seq::new(.., true, ..)` for `b: Option<bool>` (`s Seq ::= { a 5, b TRUE }` does not type-check, no warning)");
+                }
+                if !written && got == "<error>" {
+                    ctx.violate("C07.struct", "optional-component:omission-is-an-error", &f.file, span_line(clo),
+                        "a SEQUENCE value that leaves the OPTIONAL component x out is answered with an error (`No value for field x found!`): `s Seq ::= { a 5 }` is a valid value (x absent) and yields a warning and no binding");
+                }
+            }
+            Err(e) => ctx.fail_closed("C07.struct", &format!("[{}]: {}", key, e)),
+        }
+    }
 }
 
 fn oid(m: &Model, ctx: &mut Ctx, ev: &Evaluator) {
